@@ -44,7 +44,7 @@ CHECKS.update({
  'C02': {
   'text': 'Partial. Proved over the full domain (loop-free harnesses over all pairs of doubles / all operand kinds, on the real functions): the kind and error rule of all 13 binary and 3 unary operators (number op number => number; any string operand of + - * / ^ or unary minus => TYPE MISMATCH; mixed comparison => TYPE MISMATCH; / by +0 or -0 => DIVISION BY ZERO; AND/OR/NOT total), bit-exact values of + - unary+- and of the six numeric comparisons (1/0), truthiness (non-zero incl. NaN, non-empty) and 1/0 encoding of AND/OR/NOT, and the token->operator tables. Bounded stand-ins (never counted as proved): string comparisons for lengths <= 2, * and / values on small integers. Precedence/associativity, ABS/INT and PRINT formatting are not decided by this family here.',
   'note': 'Trusted: CBMC IEEE-754 model; CBMC NaN-on-arithmetic sanity checks are ignored (NaN is a legal BASIC value); Backtrace::capture stubbed (diagnostics only); powf stubbed to an arbitrary double for the kind rule.',
-  'technique': 'Kani loop-free full-domain harnesses on the real operator functions',
+  'technique': 'Kani loop-free full-domain harnesses on the real operator functions; Verus frame contracts on the real evaluator tiers',
  },
  'C01': {
   'text': 'Partial proof. Decided for all inputs/histories: (a) the representation invariant "every stored location (current, breakpoint, every stack frame, every loop, every function definition) names an existing line, both stacks <= 32" is preserved by every Program mutator under contract (Verus), which discharges the only unwrap on a line lookup (tokens_for_line), the expect()s of the function-call path and the panic! in rewind_before_token as preconditions; (b) arithmetic safety of every function under contract (token cursor increments, ProgramLines::after for every u64, Rng::random for every seed - Kani, complete); (c) error values carry a location (populate_error_location). Not decided: panic-freedom of the tokenizer, DATA parser and statement/expression evaluators, native stack depth.',
